@@ -374,7 +374,12 @@ def vary_names(decls, every=3, upper=True, raw=True):
     the generated code's own locals, each on a field of the layout kind whose accessor bodies declare that local, then the pool"""
     pool = [n for n in NAME_POOL if (upper or n.lower() == n) and (raw or not n.startswith("r#"))]
     for k, d in enumerate(decls):
-        if k % every != 0 or "gram" in d:
+        if "gram" in d:
+            continue
+        # the options of #[bitfield(base, ...)] in either order, with and without a trailing comma
+        d.setdefault("args_rev", k % 2 == 1)
+        d.setdefault("args_trailing", k % 4 >= 2)
+        if k % every != 0:
             continue
         used = set()
         rot = k // every
